@@ -52,6 +52,7 @@ type Sys struct {
 	// value that is not a number). Nothing is expected of them until a plain Put, GetPut or Delete
 	// defines their state again; white-box oracles still apply.
 	Untracked map[string]bool
+	Fills     int // number of "fill" events applied so far
 }
 
 func nowMS() int64 { return sched.PeekNS() / 1e6 }
@@ -111,6 +112,8 @@ func Describe(p *Params) func(e Ev) string {
 			return fmt.Sprintf("Tick(%dms)", e.B)
 		case "evict", "janitor", "compact":
 			return e.K
+		case "fill":
+			return "Put(4 neighbour keys of the partition)"
 		case "incr", "decr":
 			return fmt.Sprintf("%s(%s,%d)", e.K, key, e.B)
 		}
@@ -143,7 +146,7 @@ func (s *Sys) Apply(e Ev) []Fail {
 		key = p.Keys[e.A]
 	}
 	vis := p.Visible
-	if s.Untracked[key] && e.K != "tick" && e.K != "evict" && e.K != "janitor" && e.K != "compact" {
+	if s.Untracked[key] && e.K != "tick" && e.K != "evict" && e.K != "janitor" && e.K != "compact" && e.K != "fill" {
 		return s.applyUntracked(e, key)
 	}
 	switch e.K {
@@ -159,6 +162,20 @@ func (s *Sys) Apply(e Ev) []Fail {
 		for _, m := range s.Cl.Live() {
 			m.DB.VerifDMap().VerifJanitor()
 		}
+	case "fill":
+		// neighbours of the key (same partition, other names) are written so that the fragment -
+		// on the primary and on every backup - moves on to another storage table: what is written
+		// to the key afterwards lands in a later table than what was written before
+		part := s.Cl.PartID(p.DMap, key)
+		n := 0
+		s.Cl.FindKey(fmt.Sprintf("fill%d-", s.Fills), func(k string) bool {
+			if k != key && s.Cl.PartID(p.DMap, k) == part {
+				s.KV.Put(k, []byte("FFFFFFFFFFFFFFFFFFFFFFFFFFFFFF"), simcluster.PutOpt{})
+				n++
+			}
+			return n >= 4
+		})
+		s.Fills++
 	case "compact":
 		for _, m := range s.Cl.Live() {
 			for part := uint64(0); part < s.Cl.O.Partitions; part++ {
@@ -487,6 +504,27 @@ func (s *Sys) Canon() string {
 	}
 	if tok := s.LastTok[s.P.Keys[0]]; tok != nil {
 		fmt.Fprintf(&b, "last=%s", s.tokName(tok))
+	}
+	if s.P.Opts.TableSize != 0 && s.P.Opts.TableSize < 1024 {
+		// small tables: how the versions are spread over the storage tables is part of the state
+		// (two paths are merged only when the stores cannot tell them apart either)
+		part := s.Cl.PartID(s.P.DMap, s.P.Keys[0])
+		for _, m := range s.Cl.Live() {
+			for _, f := range m.DB.VerifDMap().VerifFragments() {
+				if f.PartID != part || f.Name != "dmap."+s.P.DMap {
+					continue
+				}
+				fmt.Fprintf(&b, "T[%s%s", m.Name[len(m.Name)-1:], f.Kind[:1])
+				for _, t := range f.Tables {
+					fmt.Fprintf(&b, "(s%d o%d g%d:", t.State, t.Offset, t.Garbage)
+					for _, h := range t.HKeys {
+						fmt.Fprintf(&b, "%d,", h[1])
+					}
+					b.WriteByte(')')
+				}
+				b.WriteByte(']')
+			}
+		}
 	}
 	return b.String()
 }
